@@ -367,6 +367,21 @@ def assign_refs(rng, c, fault):
                         idv, tl = t["id"], None
                     elif rng.random() < 0.5:
                         idv = "nowhere"
+                    else:
+                        # an id which the referring layer itself (or its container) binds, referenced with a DOCREF to a
+                        # fragment which does not bind it: the reference must not fall back to the referring fragment
+                        own = [o for o in layer_ids(c, A).values() if o["kind"] in sane]
+                        if own and DOCREFS[0]:
+                            t = rng.choice(own)
+                            wrong = [("L", L2["i"]) for L2 in c.layers if L2["i"] != A and t["id"] not in layer_ids(c, L2["i"])]
+                            wrong += [("C", k2) for k2 in range(len(c.conts)) if k2 != c.layers[A]["cont"]]
+                            rng.shuffle(wrong)
+                            for doc_w in wrong:
+                                if spec_idref(c, A, t["id"], doc_w, exp_id) == ("err", "dangling"):
+                                    chosen = dict(mode="id", id=t["id"], doc=doc_w, expected=exp_id, sane=sane)
+                                    break
+                            if chosen is not None:
+                                break
             if slot == "parent":
                 tl = c.layers[A]["parents"][k]["target"]
                 idv = f"L{tl}"
@@ -396,6 +411,10 @@ def assign_refs(rng, c, fault):
         if chosen is None:
             chosen = dict(mode="id", id="nowhere", doc=None, expected=exp_id, sane=sane)
         chosen.update(layer=A, slot=slot, owner=owner, k=k, rid=si)
+        if slot == "tk_table" and chosen["mode"] == "sn":
+            # every generated table has a row named 20: the row is looked up in the table the TABLE-SNREF binds to
+            c.by_uid[owner]["params"][k]["row_snref"] = 20
+            chosen["row_snref"] = 20
         refs.append(chosen)
     c.refs = refs
     c.fault = fault_at
@@ -662,6 +681,26 @@ def impl_bindings(c, db, objs):
     return out
 
 
+def row_bindings(c, objs):
+    """rid of a TABLE-KEY reference with TABLE-ROW-SNREF -> uid of the bound row"""
+    out = {}
+    for r in c.refs:
+        if r.get("row_snref") is not None:
+            try:
+                out[r["rid"]] = ident(c, objs[r["owner"]].parameters[r["k"]].table_row)
+            except Exception as e:  # noqa
+                out[r["rid"]] = f"observe:{type(e).__name__}"
+    return out
+
+
+def row_of(c, table_uid, name):
+    t = c.by_uid.get(table_uid)
+    for r in (t or {}).get("rows", []):
+        if r["name"] == name:
+            return r["uid"]
+    return None
+
+
 # ---------------------------------------------------------------- model
 def wire_case(c, targets, direct):
     idn, frn = {}, {}
@@ -841,6 +880,14 @@ def check_case(ck, c, rng, mres_for):
     objs = impl_objects(c, db)
     bind = impl_bindings(c, db, objs)
     result.update(bind=bind, db=db, objs=objs)
+    rows = row_bindings(c, objs)
+    for rid, got in rows.items():
+        s = spec[rid]
+        if s is not None and s[0] == "ok" and got != row_of(c, s[1], c.refs[rid]["row_snref"]):
+            ck.violation(f"TABLE-ROW-SNREF n{c.refs[rid]['row_snref']} of layer L{c.refs[rid]['layer']} is bound to {describe(c, got)}, "
+                         f"the row of that name of the bound table {describe(c, s[1])} is {describe(c, row_of(c, s[1], 20))}",
+                         dict(rep, rid=rid))
+            return result
     for r in c.refs:
         s = spec[r["rid"]]
         if s is not None and bind[r["rid"]] != s[1]:
@@ -849,6 +896,49 @@ def check_case(ck, c, rng, mres_for):
                          f"the property prescribes {describe(c, s[1])}", dict(rep, rid=r["rid"]))
             return result
     return result
+
+
+def check_refresh_history(ck, c, db, rng):
+    from odxtools.database import Database
+    from odxtools.nameditemlist import NamedItemList
+    docs = emit(c)
+    drop = rng.randrange(len(c.conts))
+    keep = [i for i in range(len(docs)) if i != drop]
+    fresh = Database()
+
+    def load_fresh():
+        for i in keep:
+            fresh._process_xml_tree(ET.fromstring(docs[i]))
+        fresh.refresh()
+
+    _, e_fresh, _ = cc.guarded(load_fresh, timeout=30)
+
+    def shrink():
+        db.diag_layer_containers = NamedItemList([k for k in db.diag_layer_containers if k.short_name != c.conts[drop]["name"]])
+        db.refresh()
+
+    _, e_hist, _ = cc.guarded(shrink, timeout=30)
+    ck.count(("history", json.dumps(to_json(c), sort_keys=True), drop))
+    rep = dict(case=to_json(c), dropped_container=c.conts[drop]["name"])
+    if (e_fresh is None) != (e_hist is None):
+        ck.violation(f"after removing container {c.conts[drop]['name']} and refreshing, the database "
+                     f"{'loads' if e_hist is None else 'fails (' + type(e_hist).__name__ + ')'} although a database built from the "
+                     f"remaining documents {'loads' if e_fresh is None else 'fails (' + type(e_fresh).__name__ + ')'}: ids of the removed "
+                     f"container must not stay resolvable", rep)
+        return
+    if e_fresh is None:
+        sub = Case()
+        sub.conts, sub.names = c.conts, c.names
+        sub.layers = c.layers
+        sub.by_uid = c.by_uid
+        live = {L["i"] for L in c.layers if L["cont"] != drop}
+        sub.refs = [r for r in c.refs if r["layer"] in live]
+        b1 = impl_bindings(sub, db, impl_objects(sub, db))
+        b2 = impl_bindings(sub, fresh, impl_objects(sub, fresh))
+        if b1 != b2:
+            rid = [k for k in b1 if b1[k] != b2.get(k)][0]
+            ck.violation(f"after removing container {c.conts[drop]['name']} and refreshing, reference {rid} is bound to "
+                         f"{describe(c, b1[rid])}; in a database built from the remaining documents to {describe(c, b2.get(rid))}", rep)
 
 
 def describe(c, u):
@@ -916,6 +1006,14 @@ def main(argv=None):
                 ck.violation(f"retarget_snrefs to L{V} succeeded although SNREF n{c.refs[bad[0]]['name']} of layer "
                              f"L{c.refs[bad[0]]['layer']} is not uniquely resolvable in the view of L{V}", dict(case=to_json(c), retarget=V))
                 continue
+            rows2 = row_bindings(c, impl_objects(c, db2))
+            for rid, got in rows2.items():
+                s2 = want.get(rid)
+                if s2 is not None and s2[0] == "ok" and got != row_of(c, s2[1], c.refs[rid]["row_snref"]):
+                    ck.violation(f"after retarget_snrefs to L{V} the TABLE-ROW-SNREF of layer L{c.refs[rid]['layer']} is bound to "
+                                 f"{describe(c, got)}, which is not the row of the re-bound table {describe(c, s2[1])}",
+                                 dict(case=to_json(c), retarget=V))
+                    break
             for rid, s in want.items():
                 if b2[rid] != s[1]:
                     r = c.refs[rid]
@@ -945,6 +1043,10 @@ def main(argv=None):
                     ck.violation(f"resolve and resolve_lenient disagree on {idv} in {fl}", dict(case=to_json(c), direct=[idv, fl]))
                 dres.append([ident(c, t), nwarn])
         res["direct"] = dres
+        # history independence: the database after removing a container and refreshing again behaves like a database
+        # which never contained it (no stale ids survive in the link database)
+        if res.get("db") is not None and len(c.conts) >= 2:
+            check_refresh_history(ck, c, res["db"], rng)
         wires.append(wire_case(c, targets, direct))
         meta.append((c, res, targets, direct))
         if ci % 40 == 0:
